@@ -7,6 +7,8 @@ import time
 
 import fake_s3
 from driver_common import main
+from playback.studio.recordings_lookup import RecordingLookupProperties, find_matching_recording_ids
+from playback.tape_recorder import TapeRecorder
 
 BASE = datetime.datetime(2020, 2, 27, 0, 0, 0)   # window grid crosses Feb 29 (leap day) and a month boundary
 _cache = {}
@@ -24,6 +26,11 @@ def populated(times, tags, prefix):
     key = (tuple(times), tuple(tags), prefix, _shift[0])
     if key in _cache:
         return _cache[key]
+    if len(_cache) > 8:
+        # evict BEFORE the new bucket is made: fake_s3.reset() forgets every store, a cassette populated before it could
+        # still list (its bucket object holds the store) but not fetch (objects are looked up by bucket name)
+        _cache.clear()
+        fake_s3.reset()
     s3c = fake_s3.install(random_ids=len(_cache) + 17)
     _nbuckets[0] += 1
     bucket = 'b%d' % _nbuckets[0]   # never reuse a bucket name: the fake stores are global
@@ -41,9 +48,6 @@ def populated(times, tags, prefix):
             d.set_data('k', i)
             d.add_metadata({'i': i, 'g': tags[i]})
             cas.save_recording(d)
-    if len(_cache) > 8:
-        _cache.clear()
-        fake_s3.reset()
     _cache[key] = (cas, ids)
     return cas, ids
 
@@ -100,8 +104,24 @@ def lookup(case, cas, ids):
     flt = None if case.get('filter') is None else {'g': case['filter']}
     if case.get('random'):
         random.seed(case['start'] % 1009)     # the listing is compared as a set; the seed only makes the run repeatable
-    got = list(cas.iter_recording_ids('Op', start_date=at(case['start']), end_date=end, metadata=flt,
-                                      random_results=bool(case.get('random')), limit=case.get('limit')))
+    via = case.get('via') or 'ids'
+    if via == 'metadata':
+        # the other listing entry point of a cassette: the metadata of the recordings in the window (each recording's
+        # metadata holds its ordinal 'i'; no random listing through this entry point)
+        metas = list(cas.iter_recordings_metadata('Op', start_date=at(case['start']), end_date=end, metadata=flt,
+                                                  limit=case.get('limit')))
+        idx = [m.get('i', -1) if isinstance(m, dict) and isinstance(m.get('i', -1), int) and
+               0 <= m.get('i', -1) < len(case['times']) else -1 for m in metas]
+        return {"listed": sorted(idx), "n": len(metas), "unknown": [repr(m)[:80] for m, i in zip(metas, idx) if i < 0][:3]}
+    if via in ('find', 'find-all'):
+        # the studio's lookup (playback.studio.recordings_lookup) with the default skip_incomplete=True (adds a metadata
+        # filter on the incomplete flag, which no recording of these buckets carries) / with skip_incomplete=False
+        props = RecordingLookupProperties(at(case['start']), end_date=end, metadata=flt, limit=case.get('limit'),
+                                          random_sample=bool(case.get('random')), skip_incomplete=via == 'find')
+        got = list(find_matching_recording_ids(TapeRecorder(cas), 'Op', props))
+    else:
+        got = list(cas.iter_recording_ids('Op', start_date=at(case['start']), end_date=end, metadata=flt,
+                                          random_results=bool(case.get('random')), limit=case.get('limit')))
     idx = [ids.get(g, -1) for g in got]
     return {"listed": sorted(idx), "n": len(got), "unknown": [g for g in got if g not in ids][:3]}
 
